@@ -2375,6 +2375,75 @@ def rule_sibling_dtype(chk, eng):
     chk.count("public wrappers with some dtype guard", n)
 
 
+# ----------------------------------------------------------------------------
+# rule 7b: a clamp is the last thing that happens to the clamped array
+# ----------------------------------------------------------------------------
+def rule_clamp_last(chk, eng):
+    """A C function that bounds an array in place by an integer parameter (sa.ffi.clamp_params, e.g. cider_ind_clip
+    with the table extent) establishes `0 <= x <= N`; the table readers rely on it without their own bounds check.
+    Any in-place arithmetic on that array between the clamp call and the function's exit breaks the bound."""
+    n = 0
+    cache = {}
+    for s in eng.sites:
+        fn = pf.enclosing_func(s.node)
+        if fn is None:
+            continue
+        for c, al in s.pairs:
+            if c is None or al is None:
+                continue
+            mf, (h, name) = c
+            proto = eng.c.lookup(name, mf.handles.get(h))
+            if proto is None:
+                continue
+            key = (proto.rel, name)
+            if key not in cache:
+                cache[key] = ffi.clamp_params(eng.c.tus[proto.rel], name)
+            cl = cache[key]
+            if not cl:
+                continue
+            ptrs, bound = cl
+            pnames = [pn for pn, _ in proto.params]
+            g = cfgm.CFG(fn)
+            cn = g.stmt_of_expr(s.node)
+            if cn is None:
+                continue
+            after = g.reachable(cn.id) - {cn.id}
+            for pp in ptrs:
+                i = pnames.index(pp)
+                if i >= len(al) or ".ctypes" not in al[i][1]:
+                    continue
+                subj = al[i][1].split(".ctypes")[0]
+                n += 1
+                inst = "%s:%s %s clamps `%s` by %s last" % (s.rel, s.func, name, subj, bound)
+                bad = None
+                for nid in sorted(after):
+                    a = g.nodes[nid].ast
+                    if g.nodes[nid].kind != "stmt" or a is None:
+                        continue
+                    tgt = None
+                    if isinstance(a, ast.AugAssign):
+                        tgt = a.target
+                    elif isinstance(a, ast.Assign) and len(a.targets) == 1 and isinstance(a.targets[0], ast.Subscript):
+                        tgt = a.targets[0]
+                    if tgt is None:
+                        continue
+                    root = tgt
+                    while isinstance(root, ast.Subscript):
+                        root = root.value
+                    if pf.src(root) == subj:
+                        bad = a
+                        break
+                if bad is None:
+                    chk.ok("clamp-last", inst)
+                else:
+                    chk.violation("clamp-last", s.rel, s.func, "%s(%s) then `%s`" % (name, subj, pf.src(bad)[:60]), bad.lineno,
+                                  "%s bounds `%s` in place by its argument %s (the extent of the table the values index), "
+                                  "but `%s` (line %d) modifies the array afterwards: the values handed on can lie outside "
+                                  "the bound that the table readers rely on" % (name, subj, bound, pf.src(bad)[:80], bad.lineno),
+                                  instance=inst)
+    chk.count("arrays clamped in place by a native call", n)
+
+
 def _analyse_own(chk):
     tree = chk.tree
     chk.rule("ffi", "ctypes call sites conform to the C prototypes (SysV landing slots, kinds, restype, callbacks)")
@@ -2413,6 +2482,8 @@ def _analyse_own(chk):
         chk.guard(rule_bound_prov, box["eng"])
         chk.rule("noncontig", "no provably strided view (inner-axis / stepped slice) reaches a ctypes pointer argument")
         chk.guard(rule_noncontig, box["eng"])
+        chk.rule("clamp-last", "no in-place arithmetic on an array after the native call that clamps it to a table extent")
+        chk.guard(rule_clamp_last, box["eng"])
         chk.rule("mirror", "python attributes named like integer fields of the C object a constructor creates hold the "
                            "value C derives from the integers that constructor passes")
         chk.guard(rule_mirror, box["eng"])
@@ -2608,6 +2679,16 @@ def mutants(tree):
                "            self._gaunt_coeff = get_deriv_ylm_coeff(self.lmax + 1)[:, : (self.lmax + 1) ** 2]", expect="noncontig"),
         Mutant("param: zexp grid accepts expcut = 0", PL,
                "        if alpha_formula == \"zexp\" and not expcut > 0:\n", "        if False:\n", expect="param-guards"),
+        Mutant("clamp: index rescaled after it was clipped to the table", PL,
+               "        if self._spline_size != self.nalpha:\n            di[:] *= (self._spline_size - 1) / (self.nalpha - 1)\n"
+               "            derivi[:] *= (self._spline_size - 1) / (self.nalpha - 1)\n        libcider.cider_ind_clip(\n"
+               "            di.ctypes.data_as(ctypes.c_void_p),\n            derivi.ctypes.data_as(ctypes.c_void_p),\n"
+               "            ctypes.c_int(self._spline_size - 1),\n            ctypes.c_int(exp_g.size),\n        )\n",
+               "        libcider.cider_ind_clip(\n"
+               "            di.ctypes.data_as(ctypes.c_void_p),\n            derivi.ctypes.data_as(ctypes.c_void_p),\n"
+               "            ctypes.c_int(self._spline_size - 1),\n            ctypes.c_int(exp_g.size),\n        )\n"
+               "        if self._spline_size != self.nalpha:\n            di[:] *= (self._spline_size - 1) / (self.nalpha - 1)\n"
+               "            derivi[:] *= (self._spline_size - 1) / (self.nalpha - 1)\n", expect="clamp-last"),
         # ---- rules of round 13
         Mutant("dispatch: allowed set degenerates to a plain string", ST, 'ALLOWED_RHO_DAMPS = ["exponential"]',
                'ALLOWED_RHO_DAMPS = ("exponential")', expect="dispatch"),
